@@ -76,6 +76,35 @@ type SP = gc_arena::slice::SlicePtrMeta;
 type HP = gc_arena::slice::SliceWithHeaderPtrMeta;
 type KFat<P> = gc_arena::gc::GcKind<gc_arena::gc::Fat, (), P>;
 type KThin<P> = gc_arena::gc::GcKind<gc_arena::gc::Thin, (), P>;
+/// The kind of a Node allocated with per-type metadata (`GcBuilder::new_with_type_meta`).
+pub type KNodeM = gc_arena::gc::GcKind<gc_arena::gc::Fat, NodeTag, gc_arena::meta::UnitPtrMeta>;
+
+/// Per-type metadata carried by some Node allocations: two instantiations for the same value type,
+/// i.e. two further vtables for `RefLock<NodeBody>` besides the one `Gc::new` uses.
+#[derive(Debug, PartialEq, Eq)]
+pub struct NodeTag {
+    pub tag: u32,
+}
+pub struct TagA;
+pub struct TagB;
+impl gc_arena::meta::TypeMeta for TagA {
+    type TypeMetadata = NodeTag;
+    const TYPE_METADATA: &'static NodeTag = &NodeTag { tag: 0xA };
+}
+impl gc_arena::meta::TypeMeta for TagB {
+    type TypeMetadata = NodeTag;
+    const TYPE_METADATA: &'static NodeTag = &NodeTag { tag: 0xB };
+}
+/// Which allocation route a Node with this id takes (a pure function of the id, so that a
+/// converted pointer can be given back its real kind): 0 = `Gc::new`, 1 / 2 = type metadata A / B
+/// followed by `Gc::erase_kind`.
+pub fn node_tag_of(id: Id) -> u8 {
+    match id % 7 {
+        3 => 1,
+        5 => 2,
+        _ => 0,
+    }
+}
 
 any_ptr! { 'gc;
     Node => Gc<'gc, RefLock<NodeBody<'gc>>>, GcWeak<'gc, RefLock<NodeBody<'gc>>>,
@@ -97,6 +126,8 @@ any_ptr! { 'gc;
     // converted representations of a pointer to a Node (C19): erased, and unsized to a trait object
     NodeE => Gc<'gc, ()>, GcWeak<'gc, ()>,
     NodeD => Gc<'gc, dyn DynNode<'gc> + 'gc>, GcWeak<'gc, dyn DynNode<'gc> + 'gc>,
+    // a Node allocated with per-type metadata, in the kind it was allocated with
+    NodeM => Gc<'gc, RefLock<NodeBody<'gc>>, KNodeM>, GcWeak<'gc, RefLock<NodeBody<'gc>>, KNodeM>,
 }
 
 /// The trait Node pointers are unsized to.
